@@ -340,6 +340,7 @@ class _RealARStub(torch.nn.Module):
 
 # ---------------------------------------------------------------------------------------------
 def job_spline(cfg):
+    SK.USE_FLOORS[0] = bool(cfg.get("floors"))
     """the spline functions called directly, with a symbolic (non-default) box."""
     kind, K, mode, box = cfg["kind"], cfg["K"], cfg["mode"], cfg["box"]
     timeout = cfg["timeout"]
@@ -359,7 +360,7 @@ def job_spline(cfg):
     jr = new_jr(kernel)
     jr["paths"] = len(results)
     jr["prune_queries"] = ex.stats["prune_queries"]
-    sig = {"K": K, "box": box}
+    sig = {"K": K, "box": box, "floors": bool(cfg.get("floors"))}
     xt = h["x"].a[0].t
 
     def replay_fn(relation, leaves):
@@ -422,6 +423,7 @@ def replay_spline(kind, K, mode, relation, leaves):
 
 
 def replay_entry(kernel, signature, relation, leaves):
+    SK.USE_FLOORS[0] = bool(signature.get("floors"))
     if "case" in signature:
         return replay_module(CS.by_name(signature["case"]), relation, leaves)
     kind, mode = kernel.split("_spline/")
@@ -444,6 +446,8 @@ def configs(tier):
                 if box == "unit" and tier == "quick" and K == 1:
                     continue
                 cfgs.append({"type": "spline", "kind": kind, "K": K, "mode": mode, "box": box, "timeout": t})
+    for kind in ("rq", "quadratic", "cubic"):
+        cfgs.append({"type": "spline", "kind": kind, "K": 2, "mode": "box", "box": "sym", "floors": True, "timeout": t})
     for c in CS.cases_for(tier):
         cfgs.append({"type": "module", "case": c.name, "timeout": t, "nval": 4})
     return cfgs
